@@ -828,7 +828,9 @@ class Evaluator:
         if isinstance(e, ast.Subscript):
             return self.subscript(e, env, fn, depth)
         if isinstance(e, ast.Lambda):
-            return self.opaque('lambda')
+            return ('lambda', e, dict(env))
+        if isinstance(e, ast.DictComp):
+            return self.dictcomp(e, env, fn, depth)
         if isinstance(e, ast.Starred):
             return self.eval(e.value, env, fn, depth)
         return self.opaque(f'expression {type(e).__name__}')
@@ -1003,12 +1005,57 @@ class Evaluator:
         elt = self.eval(e.elt, env2, fn, depth)
         return TList([RepL(src, [elt])])
 
+    def dictcomp(self, e: ast.DictComp, env: Dict[str, Any], fn: FuncInfo, depth: int) -> Any:
+        """{key: list(group) for key, group in groupby(seq, key=f)}: for every key only the LAST run of consecutive
+        elements with that key survives (later runs overwrite earlier ones)."""
+        if len(e.generators) == 1 and not e.generators[0].ifs:
+            g = e.generators[0]
+            it = self.eval(g.iter, env, fn, depth)
+            if isinstance(it, tuple) and it and it[0] == 'groupby' and isinstance(g.target, ast.Tuple) and len(g.target.elts) == 2 \
+                    and all(isinstance(x, ast.Name) for x in g.target.elts):
+                kn, gn = g.target.elts[0].id, g.target.elts[1].id
+                val = e.value
+                if isinstance(val, ast.Call) and isinstance(val.func, ast.Name) and val.func.id in ('list', 'tuple') and len(val.args) == 1:
+                    val = val.args[0]
+                if isinstance(e.key, ast.Name) and e.key.id == kn and isinstance(val, ast.Name) and val.id == gn:
+                    return ('groupdict', it[1], it[2])
+        return self.opaque('expression DictComp')
+
+    def group_lookup(self, gd: tuple, k: Any, fn: FuncInfo, depth: int) -> Any:
+        _tag, seq, key = gd
+        lam: ast.Lambda = key[1]
+        params = [a.arg for a in lam.args.args]
+        if len(params) != 1:
+            return self.opaque('groupby key with several parameters')
+        src = self.make_src(seq, ast.Name(id=params[0], ctx=ast.Store()), fn)
+        if src is None:
+            return self.opaque('groupby over ' + type(seq).__name__)
+        env2 = dict(key[2])
+        env2[params[0]] = src.var
+        env2['__group_key__'] = k
+        cmp = ast.Compare(left=lam.body, ops=[ast.Eq()], comparators=[ast.Name(id='__group_key__', ctx=ast.Load())])
+        src.filters.append(self.cond(cmp, env2, fn, depth))
+        src.order = 'partial:only the last run of consecutive elements with that key' + ('+' + src.order if src.order else '')
+        return TList([RepL(src, [src.var])])
+
     def subscript(self, e: ast.Subscript, env: Dict[str, Any], fn: FuncInfo, depth: int) -> Any:
         base = self.eval(e.value, env, fn, depth)
         if isinstance(base, TList) and isinstance(e.slice, ast.Constant) and isinstance(e.slice.value, int):
             i = e.slice.value
             if all(not isinstance(x, (RepL, AltL)) for x in base.items) and -len(base.items) <= i < len(base.items):
                 return base.items[i]
+        if isinstance(base, TList) and isinstance(e.slice, ast.Constant) and isinstance(e.slice.value, int) and \
+                len(base.items) == 1 and isinstance(base.items[0], RepL) and len(base.items[0].items) == 1 and \
+                isinstance(base.items[0].items[0], Sym):
+            # one fixed element of a repetition: some element of the collection, not the loop variable of any loop
+            v = base.items[0].items[0]
+            return self.new_sym(f'{v.root.split("#")[0]}_at_{e.slice.value}', v.typ)
+        if isinstance(base, TList) and isinstance(e.slice, ast.Slice) and len(base.items) == 1 and isinstance(base.items[0], RepL):
+            # a slice of a repetition: a partial view of the underlying collection
+            r = base.items[0]
+            src = Src(r.src.base, r.src.var, list(r.src.filters),
+                      f'partial:slice [{ast.unparse(e.slice)}]' + ('+' + r.src.order if r.src.order else ''))
+            return TList([RepL(src, r.items)])
         if isinstance(base, Sym):
             if isinstance(e.slice, ast.Slice):
                 return Sym(base.root, base.path + (f'[{ast.unparse(e.slice)}]',), base.typ)
@@ -1199,6 +1246,11 @@ class Evaluator:
         if isinstance(callee, tuple) and callee[0] == 'ext':
             if callee[1] in ('copy.deepcopy', 'copy.copy') and args:
                 return args[0]
+            if callee[1] == 'itertools.groupby' and args:
+                key = args[1] if len(args) > 1 else kwargs.get('key')
+                if isinstance(key, tuple) and key and key[0] == 'lambda' and isinstance(args[0], (Sym, TList)):
+                    # groups of CONSECUTIVE elements with equal key
+                    return ('groupby', args[0], key)
             return self.opaque(f'external call {callee[1]}')
         return self.opaque(f'call of {type(callee).__name__} `{ast.unparse(f)[:40]}`')
 
@@ -1230,6 +1282,14 @@ class Evaluator:
         return self.opaque(f'builtin {name}')
 
     def method_call(self, recv: Any, meth: str, e: ast.Call, env, fn, depth) -> Any:
+        if isinstance(recv, tuple) and recv and recv[0] == 'groupdict':
+            if meth == 'get' and e.args:
+                k = self.eval(e.args[0], env, fn, depth)
+                dflt = self.eval(e.args[1], env, fn, depth) if len(e.args) > 1 else TNone
+                if not (isinstance(dflt, TList) and not dflt.items):
+                    return self.opaque('dict.get default other than []')
+                return self.group_lookup(recv, k, fn, depth)
+            return self.opaque(f'dict.{meth} on grouped dictionary')
         if isinstance(recv, TAlt):
             ra = self.method_call(recv.a, meth, e, env, fn, depth)
             rb = self.method_call(recv.b, meth, e, env, fn, depth)
@@ -1242,6 +1302,11 @@ class Evaluator:
                 return TNone
             if meth == 'extend' and e.args:
                 recv.items.extend(self.as_items(self.eval(e.args[0], env, fn, depth)))
+                return TNone
+            if meth == 'insert' and len(e.args) == 2 and isinstance(e.args[0], ast.Constant) and \
+                    isinstance(e.args[0].value, int) and 0 <= e.args[0].value <= len(recv.items) and \
+                    all(not isinstance(x, (RepL, AltL)) for x in recv.items[:e.args[0].value]):
+                recv.items.insert(e.args[0].value, self.eval(e.args[1], env, fn, depth))
                 return TNone
             return self.opaque(f'list.{meth}')
         if isinstance(recv, TStr):
